@@ -1300,6 +1300,13 @@ static int run_once(const uint8_t *tp_, size_t len, struct vp_report *rep, unsig
             /* as examples/grid.c does: a control packet "sound." carrying only the wanted frame size */
             struct uref *fd = uref_alloc_control(c->pfx.fm.uref_mgr);
             uref_flow_set_def(fd, UREF_SOUND_FLOW_DEF);
+            if (preset & 1) {
+                /* first an allocation the pipe must refuse (neither a frame size nor a picture rate): whatever the refused
+                 * incarnation throws goes to a recording probe of its own and is judged like any other pipe's announcements */
+                struct upipe *refused = upipe_flow_alloc(zoo[c->type].mgr(), pfx_probe_alloc(&c->pfx, NULL), fd);
+                R("  flow_alloc(audio_copy, \"sound.\" without frame size) -> %s\n", refused ? "a pipe" : "NULL");
+                if (refused != NULL) { FAILP(ORACLE_PROTO, "alloc/accepted", "audio_copy accepted an allocation flow definition with neither sound.samples nor pic.fps"); upipe_release(refused); }
+            }
             uref_sound_flow_set_samples(fd, c->ac_samples);
             P->upipe = upipe_flow_alloc(zoo[c->type].mgr(), probe, fd);
             uref_free(fd);
